@@ -996,7 +996,7 @@ make: A4in2::make,
         h: 448,
         family: Family::Acep,
         bpp1: 4,
-        busy_held_after_pof: true,
+        busy_held_after_pof: false,
         color: ColorKind::Oct,
         alias_color: ColorKind::Oct,
         alias_bpp: 4,
